@@ -131,12 +131,19 @@ def run(ctx):
                             + (f'; a chain configured with the second returns the result computed for the first'
                                if conf['stale'] else '') + note, detail={'values': [m[1] for m in ms], 'confirm': conf})
     ctx.extra['collision_groups'] = collisions
+    first, second = {}, {}
     for x in (2, 'a', [1], {'a': 1}, None, 1.5):
         k = run_forked(_swap, x)
         ctx.traces += 1
         if k['cmp12'] == k['cmp21']:
             ctx.report('wiring-swap', f'a task reading p1::a and p2::a has one location ({k["cmp12"]}) whether p1 or p2 carries '
                                       f'x={x!r} (the other x=1): two different input wirings share a result')
+        # every single input matters: changing the computation behind ONE mount (the first-listed or the last) moves it
+        for which, table in (('cmp12', first), ('cmp21', second)):
+            if k[which] in table:
+                ctx.report('wiring-one-input', f'a task reading p1::a and p2::a has one location ({k[which]}) for x={table[k[which]]!r} '
+                                               f'and x={x!r} behind {"p1" if which == "cmp12" else "p2"} (the other mount unchanged)')
+            table[k[which]] = x
     # downstream: a different upstream key must move every downstream key (chain hash), on the real code
     for t in ('b', 'c', 'd', 'e', 'm', 'n'):
         down = defaultdict(set)
